@@ -5,7 +5,7 @@ import Chartparse.Proofs.ImpRules
     `during` test — is the cursor function of the hand model, for every list of phrases, every tick and every cursor ≥ 0,
     whatever `tick_is_after_event` / `tick_is_during_event` answer. -/
 namespace Chartparse.Tie
-open Chartparse Chartparse.Imp
+open Chartparse Chartparse.PyImp
 
 /-- the scan over the phrases from position `i` on (the hand model's `Inst.cand`, over any `after` predicate) -/
 def candG (after : Val → Bool) : List Val → Nat → Nat
